@@ -486,6 +486,7 @@ CPB = "rl4co/models/common/constructive/base.py"
 PPOF = "rl4co/models/rl/ppo/ppo.py"
 CORPUS += [
     # ---------------------------------------------------------------- C11
+    V("C11", "l2d-act-temperature-only", "rl4co/models/zoo/l2d/policy.py", '        logits, mask = self.decoder(td, hidden=None, num_starts=0)\n        logprobs = process_logits(logits, mask, tanh_clipping=self.tanh_clipping)', '        logits, mask = self.decoder(td, hidden=None, num_starts=0)\n        logprobs = process_logits(logits, mask, temperature=self.temperature, tanh_clipping=self.tanh_clipping)', 'C11.g'),
     V("C11", "mdam-scores-not-normalised", "rl4co/models/zoo/mdam/decoder.py", "        if normalize:\n            logprobs = F.log_softmax(logprobs, dim=-1)\n", "", "C11.f"),
     V("C11", "ptrnet-scores-not-normalised", "rl4co/models/zoo/ptrnet/decoder.py", "log_p = torch.log_softmax(logits, dim=1)", "log_p = logits", "C11.f"),
     V("C11", "ptrnet-temperature-after-normalisation", "rl4co/models/zoo/ptrnet/decoder.py", "log_p = torch.log_softmax(logits, dim=1)", "log_p = torch.log_softmax(logits, dim=1) / 2.0", "C11.f"),
@@ -562,6 +563,8 @@ RFF = "rl4co/models/rl/reinforce/reinforce.py"
 SYMF = "rl4co/models/zoo/symnco/losses.py"
 CORPUS += [
     # ---------------------------------------------------------------- C16
+    V("C16", "entropy-under-no-grad", "rl4co/utils/ops.py", 'def calculate_entropy(', '@torch.no_grad()\ndef calculate_entropy(', 'C16.e'),
+    V("C16", "log-likelihood-under-no-grad", "rl4co/utils/decoding.py", 'def get_log_likelihood(', '@torch.no_grad()\ndef get_log_likelihood(', 'C16.e'),
     V("C16", "critic-baseline-not-detached", BLF, "        return v.detach(), F.mse_loss(v, c.detach())", "        return v, F.mse_loss(v, c.detach())", "C16.a"),
     V("C16", "critic-loss-detached-value", BLF, "        return v.detach(), F.mse_loss(v, c.detach())", "        return v.detach(), F.mse_loss(v.detach(), c.detach())", "C16.a"),
     V("C16", "exponential-not-detached", BLF, "        self.v = v.detach()  # Detach since we never want to backprop", "        self.v = v  # Detach since we never want to backprop", "C16.a"),
@@ -750,6 +753,7 @@ TRF = "rl4co/data/transforms.py"
 EVF = "rl4co/tasks/eval.py"
 CORPUS += [
     # ---------------------------------------------------------------- C15
+    V("C15", "pomo-augments-raw-batch", "rl4co/models/zoo/pomo/model.py", '            td = self.augment(td)\n', '            td = self.env.reset(self.augment(batch))\n', 'C15.d'),
     V("C15", "symmetric-reflect-below-2pi", "rl4co/data/transforms.py", 'mask = phi > 2 * math.pi', 'mask = phi < 2 * math.pi', 'C15.b'),
     V("C15", "symmetric-reflect-always", "rl4co/data/transforms.py", 'mask = phi > 2 * math.pi', 'mask = phi >= 0', 'C15.b'),
     V("C15", "symmetric-rotation-swapped-at-zero", "rl4co/data/transforms.py", 'x_prime = torch.cos(phi) * x - torch.sin(phi) * y\n    y_prime = torch.sin(phi) * x + torch.cos(phi) * y', 'x_prime = torch.sin(phi) * x + torch.cos(phi) * y\n    y_prime = torch.cos(phi) * x - torch.sin(phi) * y', 'C15.b'),
